@@ -13,7 +13,7 @@ import "fmt"
 //	3. every call names an existing template, passes only params the callee
 //	   declares and - unless it passes data="$expr" - all required ones;
 //	4. a let may not be named ij; a template may not declare params both in
-//	   soydoc and in the header.
+//	   soydoc and in the header; a msg contains no let.
 //
 // Check returns the list of rule violations (empty = the bundle is valid).
 
@@ -159,6 +159,20 @@ func (c *checker) cmd(cm *Cmd) {
 	case "log":
 		c.block(cm.Body)
 	case "msg":
+		// a message holds text, print commands and one plural - no variable definitions
+		var scan func(cs []Cmd)
+		scan = func(cs []Cmd) {
+			for _, x := range cs {
+				if x.K == "let" || x.K == "letc" {
+					c.errf("template %s: {let $%s} inside a msg", c.tmpl.Name, x.Var)
+				}
+				for _, br := range x.Branches {
+					scan(br.Body)
+				}
+				scan(x.Else)
+			}
+		}
+		scan(cm.Body)
 		c.block(cm.Body)
 	case "plural":
 		c.expr(cm.Expr)
